@@ -146,6 +146,35 @@ func fits(v int64, bits uint) bool {
 func (g *Gen) lzfOps() (string, []byte) {
 	var out []byte
 	var ops []string
+	if g.R.Chance(1, 12) {
+		// a long, repetitive value (9-16 KiB) whose back references reach 2048..8192 bytes back
+		for i := 0; i < 3; i++ {
+			lit := g.R.Bytes(32)
+			out = append(out, lit...)
+			ops = append(ops, "l"+hx(lit))
+		}
+		for len(out) < 9000+g.R.Intn(7000) {
+			maxd := vfutil.Min(len(out), 8192)
+			dist := 1 + g.R.Intn(maxd)
+			if maxd > 2048 && g.R.Chance(3, 4) {
+				dist = 2048 + g.R.Intn(maxd-2047)
+			}
+			if g.R.Chance(1, 10) {
+				dist = maxd
+			}
+			ln := vfutil.Pick(g.R, []int{264, 264, 100, 9, 3})
+			for k := 0; k < ln; k++ {
+				out = append(out, out[len(out)-dist])
+			}
+			ops = append(ops, fmt.Sprintf("m%d.%d", dist, ln))
+			if g.R.Chance(1, 6) {
+				lit := g.R.Bytes(1 + g.R.Intn(32))
+				out = append(out, lit...)
+				ops = append(ops, "l"+hx(lit))
+			}
+		}
+		return strings.Join(ops, ","), out
+	}
 	n := g.R.Range(1, 6)
 	for i := 0; i < n; i++ {
 		if len(out) > 0 && g.R.Chance(1, 2) {
@@ -370,11 +399,14 @@ func (g *Gen) lpEntry() (string, []byte) {
 }
 
 func (g *Gen) count() int {
-	switch g.R.Intn(8) {
-	case 0, 1:
+	switch g.R.Intn(16) {
+	case 0, 1, 2, 3:
 		return 1
-	case 2:
+	case 4, 5:
 		return g.R.Range(60, 70)
+	case 6:
+		// around the 100-command pipeline batches of the expansion path
+		return vfutil.Pick(g.R, []int{99, 100, 101, 200, 201, 250})
 	default:
 		return g.R.Range(1, 9)
 	}
@@ -622,6 +654,38 @@ func (g *Gen) ObjKind(kind string) (string, *Val, string) {
 		return strings.Join(toks, " "), v, kind
 	case "stream":
 		return g.Stream()
+	case "slpmany", "hlpmany":
+		// a listpack of 65535 or more elements: its count field says 65535 = "unknown"
+		n := 65535 + g.R.Intn(40)
+		if kind == "hlpmany" {
+			n = 2 * (32768 + g.R.Intn(20))
+		}
+		toks := make([]string, 0, n+3)
+		vals := make([][]byte, 0, n)
+		for i := 0; i < n; i++ {
+			enc := "i24"
+			switch {
+			case i < 128:
+				enc = "u7"
+			case i < 4096:
+				enc = "i13"
+			case i < 32768:
+				enc = "i16"
+			}
+			d := strconv.Itoa(i)
+			toks = append(toks, enc+":"+d)
+			vals = append(vals, []byte(d))
+		}
+		head := "slp"
+		v := &Val{Kind: "set", Set: vals}
+		if kind == "hlpmany" {
+			head = "hlp"
+			v = &Val{Kind: "hash"}
+			for i := 0; i+1 < n; i += 2 {
+				v.Hash = append(v.Hash, HField{vals[i], vals[i+1]})
+			}
+		}
+		return head + " w" + vfutil.Pick(g.R, []string{"a", "2", "3"}) + " " + strconv.Itoa(n) + " " + strings.Join(toks, " "), v, kind
 	case "mod2":
 		t := g.modulePayload()
 		return "mod2 " + t, &Val{Kind: "module"}, kind
@@ -658,6 +722,8 @@ type FileOpts struct {
 	Modules bool
 	// Huge: the file may carry one element >= 2 MiB
 	Huge bool
+	// Many: "slpmany" / "hlpmany": the first key is a listpack set / hash of >= 65535 elements
+	Many string
 	// Reserved: keys under the reserved prefixes are generated too, preferably as the
 	// first key of a database
 	Reserved bool
@@ -697,7 +763,7 @@ func (g *Gen) File(o FileOpts) *Dataset {
 	}
 	db := 0
 	nk := g.R.Intn(o.MaxKeys + 1)
-	if o.Huge && nk == 0 {
+	if (o.Huge || o.Many != "") && nk == 0 {
 		nk = 1
 	}
 	first := true
@@ -767,7 +833,9 @@ func (g *Gen) File(o FileOpts) *Dataset {
 		g.used[fmt.Sprintf("%d/%s", db, k)] = true
 		var ot, kind string
 		var val *Val
-		if o.Modules && g.R.Chance(1, 25) {
+		if o.Many != "" && i == 0 {
+			ot, val, kind = g.ObjKind(o.Many)
+		} else if o.Modules && g.R.Chance(1, 25) {
 			ot, val, kind = g.ObjKind("mod2")
 		} else {
 			ot, val, kind = g.Obj()
